@@ -12,19 +12,22 @@ instance (d : Def) : Decidable (Closed d) := by unfold Closed; infer_instance
 
 /-- The assignments on which the code's three notions of "set" cannot be told apart from the property's:
     no empty string in an exclusive group, no `False` on a required field whose type is not exactly `bool`,
-    no `True` on an optional file-set field. -/
+    no `True` on an optional file-set field, no lazy value on a field that has requirements. -/
 def Uniform (d : Def) (a : Assignment) : Prop :=
   (∀ g ∈ d.xor, ∀ x ∈ g, ∀ n, x = some n → a n ≠ .str "") ∧
   (∀ f ∈ d.fields, ∀ rs ∈ f.requires, ∀ r ∈ rs, a r.name = .bool false → isBoolField d r.name = true) ∧
-  (∀ f ∈ d.fields, f.optFileset = true → a f.name ≠ .bool true)
+  (∀ f ∈ d.fields, f.optFileset = true → a f.name ≠ .bool true) ∧
+  (∀ f ∈ d.fields, f.requires ≠ [] → a f.name ≠ .lazy)
 
 instance (d : Def) (a : Assignment) : Decidable (Uniform d a) := by unfold Uniform; infer_instance
 
-theorem triggers_iff_isSet (f : Field) (v : Val) (hu : v ≠ .unset) (hf : f.optFileset = true → v ≠ .bool true) :
+theorem triggers_iff_isSet (f : Field) (v : Val) (hu : v ≠ .unset) (hf : f.optFileset = true → v ≠ .bool true)
+    (hl : v ≠ .lazy) :
     triggers f v = true ↔ IsSet v := by
   unfold triggers IsSet
   cases v with
   | unset => exact (hu rfl).elim
+  | lazy => exact (hl rfl).elim
   | none => simp
   | str s => simp
   | bool b =>
@@ -41,6 +44,7 @@ theorem truthy_iff_isSet (v : Val) (h : v ≠ .str "") : truthy v = true ↔ IsS
   | unset => simp
   | none => simp
   | bool b => cases b <;> simp
+  | lazy => simp
   | str s =>
     have : s ≠ "" := fun hs => h (by rw [hs])
     simp [this]
@@ -62,13 +66,13 @@ theorem codeRulesOK_iff_rulesOK (d : Def) (a : Assignment) (hc : Closed d) (hu :
     CodeRulesOK d a ↔ RulesOK d a := by
   unfold CodeRulesOK RulesOK RulesOKWith
   obtain ⟨hc1, hc2⟩ := hc
-  obtain ⟨hu1, hu2, hu3⟩ := hu
+  obtain ⟨hu1, hu2, hu3, hu4⟩ := hu
   constructor
   · rintro ⟨hM, hR, hX⟩
     refine ⟨hM, ?_, ?_⟩
     · intro f hf hset hreq
       have hne : a f.name ≠ .unset := hM f hf (hc1 f hf hreq)
-      have ht := (triggers_iff_isSet f (a f.name) hne (hu3 f hf)).mpr hset
+      have ht := (triggers_iff_isSet f (a f.name) hne (hu3 f hf) (hu4 f hf hreq)).mpr hset
       obtain ⟨rs, hrs, hall⟩ := hR f hf ht hreq
       refine ⟨rs, hrs, ?_⟩
       intro r hr
@@ -89,7 +93,7 @@ theorem codeRulesOK_iff_rulesOK (d : Def) (a : Assignment) (hc : Closed d) (hu :
     refine ⟨hM, ?_, ?_⟩
     · intro f hf ht hreq
       have hne : a f.name ≠ .unset := hM f hf (hc1 f hf hreq)
-      have hset := (triggers_iff_isSet f (a f.name) hne (hu3 f hf)).mp ht
+      have hset := (triggers_iff_isSet f (a f.name) hne (hu3 f hf) (hu4 f hf hreq)).mp ht
       obtain ⟨rs, hrs, hall⟩ := hR f hf hset hreq
       refine ⟨rs, hrs, ?_⟩
       intro r hr
